@@ -132,7 +132,7 @@ def surface_items(ctx):
             combos += [(i, j) for i in range(n) for j in range(i + 1, n)]
         elif n >= 2:
             combos.append((0, n - 1))
-        for combo in combos:
+        for combo in combos * ctx.pick(1, 5):       # thorough: five different fillers per (overload, positions)
             call = None
             for _ in range(4):
                 # the error is given the static type of the parameter (if(true, error, <value>)), so that the
